@@ -40,6 +40,9 @@ AbsentStaysAbsent(o, d) == d.t = "x" => /\ Seen(o.norm) => o.norm.val.t = "x" /\
                                         /\ Seen(o.sub) => o.sub.val.t = "x" /\ ~o.sub.haskey
 NullStaysNull(o, d) == d.t = "n" => /\ Seen(o.norm) => o.norm.val.t = "n"
                                     /\ Seen(o.sub) => o.sub.val.t = "n"
+\* a request that passed parsing, validation and variable extraction reaches the subgraph (generated cases are valid
+\* by construction: nothing in the variable machinery may refuse them)
+Reaches(o) == Seen(o.norm) => o.sub.ok
 \* a second, independent variable $zz of the same request (omitted | explicit null | 7) arrives in the state it was sent in
 CompanionPreserved(o) == o.c.comp # "none" => /\ Seen(o.norm) => o.norm.comp = o.c.comp
                                               /\ Seen(o.sub) => o.sub.comp = o.c.comp
@@ -57,6 +60,7 @@ Failed(o) ==
     \cup (IF AbsentStaysAbsent(o, d) THEN {} ELSE {"AbsentStaysAbsent"})
     \cup (IF NullStaysNull(o, d) THEN {} ELSE {"NullStaysNull"})
     \cup (IF CompanionPreserved(o) THEN {} ELSE {"CompanionPreserved"})
+    \cup (IF Reaches(o) THEN {} ELSE {"Reaches"})
 
 \* ---- collect mode
 HighWater == TLCSet(1, IF l > TLCGet(1) THEN l ELSE TLCGet(1))
@@ -83,4 +87,5 @@ Inv_FormsAgree == l <= Len(TraceLog) => FormsAgree(TraceLog[l])
 Inv_AbsentStaysAbsent == l <= Len(TraceLog) => AbsentStaysAbsent(TraceLog[l], Denotes(TraceLog[l].c))
 Inv_NullStaysNull == l <= Len(TraceLog) => NullStaysNull(TraceLog[l], Denotes(TraceLog[l].c))
 Inv_CompanionPreserved == l <= Len(TraceLog) => CompanionPreserved(TraceLog[l])
+Inv_Reaches == l <= Len(TraceLog) => Reaches(TraceLog[l])
 =============================================================================
